@@ -445,7 +445,8 @@ def degree_in(e: ast.AST, sym: str, defs: dict, depth: int = 0) -> Optional[int]
         f = e.func
         name = f.attr if isinstance(f, ast.Attribute) else (f.id if isinstance(f, ast.Name) else '')
         keep = {'transpose', 'conj', 'conjugate', 'copy', 'reshape', 'ravel', 'flatten', 'squeeze', 'astype', 'view', 'sum', 'mean',
-                'asarray', 'array', 'real', 'imag', 'trace', 'diag', 'hstack', 'vstack', 'concatenate', 'cast', 'abs', 'norm'}
+                'asarray', 'array', 'real', 'imag', 'trace', 'diag', 'hstack', 'vstack', 'concatenate', 'cast', 'abs', 'norm',
+                'expand_dims', 'atleast_1d', 'atleast_2d', 'broadcast_to', 'ascontiguousarray'}
         if name in keep:
             if isinstance(f, ast.Attribute) and not (isinstance(f.value, ast.Name) and f.value.id in ('np', 'numpy', 'math')) \
                     and not norm(f.value).endswith('linalg'):
